@@ -362,7 +362,7 @@ pub fn check_accessors(log: &MultiRecordLog, model: &Model, missing: &[&str]) ->
         // end points: first-1, first, a middle position, a gap position, last, last+1
         let first = mq.first();
         let last = mq.next.saturating_sub(1);
-        let mut pts: Vec<u64> = vec![first.saturating_sub(1), first, last, last + 1];
+        let mut pts: Vec<u64> = vec![0, first.saturating_sub(1), first, last, last + 1, u64::MAX];
         if mq.recs.len() >= 2 {
             pts.push(mq.recs[mq.recs.len() / 2].0);
             // a gap position if there is one
